@@ -1,5 +1,5 @@
 SPEC = {
-    "lean_modules": ["AM.Props.C09", "AM.Props.C02", "AM.Props.C02M"],
+    "lean_modules": ["AM.Props.C09", "AM.Props.C02", "AM.Props.C02M", "AM.Props.C19"],
     "theorems": [
         "AM.Silence.merge_refuses_past_retention", "AM.Silence.merge_monotone", "AM.Silence.merge_result",
         "AM.Silence.merge_idem_no_gossip", "AM.Silence.merge_old_no_gossip",
@@ -10,6 +10,7 @@ SPEC = {
         "AM.Silence.index_inv_preserved", "AM.Silence.query_eq_filter",
         "AM.Silence.reload_lossless", "AM.Silence.effective_after_merge",
         "AM.Silence.stMi_mergeOne", "AM.Silence.merge_stale_index_counterexample", "AM.Silence.set_keeps_matchers",
+        "AM.Gossip.full_state_superset", "AM.Gossip.mergeRemote_covers",
     ],
     "engines": [
         {"name": "silmerge", "pkg": "./silmerge", "search_cases": 20000},
@@ -17,6 +18,9 @@ SPEC = {
         {"name": "silencer", "pkg": "./silencer", "search_cases": 6000, "quick_cases": 1200},
         # a Merge racing a local Expire of the same id (real goroutines, real time): the newest version wins
         {"name": "mutesrace", "pkg": "./mutesrace", "search_cases": 60, "timeout_quick": 300, "only": ["merge_monotone"]},
+        # "connected instances converge": a lost update broadcast is repaired by the periodic full-state exchange of the
+        # gossip layer (delegate.LocalState(join=false) -> MergeRemoteState), C19's engine
+        {"name": "gossip", "pkg": "./gossip", "search_cases": 6000, "quick_cases": 600, "only": ["full_state_superset"]},
     ],
     "rule": "random op sequences on 2-3 real silence.Silences (+ Silencer) under synctest virtual time: local Set (create / compatible and "
             "incompatible edit, among them every one-component variation of the matcher sets) and Expire whose broadcasts are captured into a pool, scripted channel delivering pool entries "
